@@ -252,4 +252,76 @@ theorem fault_not_reached (fm : FMachine σ α β) (cbN : Nat → Option Fault) 
   simp only []
   rw [(inject_before fm cbN (gate raw) _ 0 (by intro i _ h2; exact hnone i (by omega))).1]
 
+/-! ### an error *returned* by the callback of an error-aware operator (`MapErr` family) -/
+
+structure Returned (fm : FMachine σ α β) (P : Plan) (mode : SrcMode) (sub : Ctx) (raw : List (Notif α))
+    (before : List (Notif β)) (c' : Ctx) (e : Err) : Prop where
+  escaped : (runScript fm P mode sub raw).2 = []
+  /-- the returned error is forwarded as it is (no wrapper), with the context the reaction chose -/
+  trace : (runScript fm P mode sub raw).1.trace = if hasTerm before then before else before ++ [.error c' e]
+  grammar : Grammar (runScript fm P mode sub raw).1.trace
+  unhandled : (runScript fm P mode sub raw).1.unhandled = []
+  released : (runScript fm P mode sub raw).1.dOpen = false ∧ (runScript fm P mode sub raw).1.uOpen = false ∧
+    (runScript fm P mode sub raw).1.rel = 1
+
+/-- **C07, error return.** The first planned outcome of the Next-position callback is `return …, err`
+    at the invocation made for the input that follows `pre`; the operator's reaction to a returned
+    error (`onErrRet`) emits `Error(err)`. Then: delivered = (what the un-faulted operator delivers
+    before) ++ [Error(err)], nothing escaped, nothing unhandled, upstream released. -/
+theorem error_return_surfaces (fm : FMachine σ α β) (cbN : Nat → Option Fault) (e : Err)
+    (h : σ → Ctx → α → Err → σ × List (Notif β))
+    (mode : SrcMode) (sub : Ctx) (raw pre post : List (Notif α)) (c c' : Ctx) (v : α)
+    (hs : fm.base.subscribes = true)
+    (hsub : hasTerm (fm.base.onSubscribe fm.base.init sub).2 = false)
+    (hraw : gate raw = pre ++ .next c v :: post)
+    (hh : fm.onErrRet = some h)
+    (hf : cbN (countCalls fm (fm.base.onSubscribe fm.base.init sub).1 pre) = some (.errRet e))
+    (hfirst : ∀ i, i < countCalls fm (fm.base.onSubscribe fm.base.init sub).1 pre → cbN i = none)
+    (hcall : fm.callsN (fm.base.after (fm.base.onSubscribe fm.base.init sub).1 pre) c v = true)
+    (hret : (h (fm.base.after (fm.base.onSubscribe fm.base.init sub).1 pre) c v e).2 = [.error c' e]) :
+    Returned fm (nextPlan cbN) mode sub raw (runOp fm.base mode sub pre).out c' e := by
+  obtain ⟨hesc, hag⟩ := runScript_agree fm cbN mode sub raw hs hsub
+  have hsi : (inject fm cbN).subscribes = true := hs
+  have hpre : hasTerm pre = false := gate_prefix_noTerm raw pre post _ hraw
+  have hbefore : (runOp fm.base mode sub pre).out =
+      gate ((fm.base.onSubscribe fm.base.init sub).2 ++ fm.base.emits (fm.base.onSubscribe fm.base.init sub).1 pre) := by
+    rw [runOp_out _ _ _ _ hs, gate_of_noTerm pre hpre]
+  -- the emissions of the injected machine over the gated script
+  obtain ⟨i1, i2⟩ := inject_before fm cbN pre (fm.base.onSubscribe fm.base.init sub).1 0
+    (by intro i _ h2; exact hfirst i (by omega))
+  have hstep : (inject fm cbN).step (fm.base.after (fm.base.onSubscribe fm.base.init sub).1 pre,
+        0 + countCalls fm (fm.base.onSubscribe fm.base.init sub).1 pre) (.next c v) =
+      (((h (fm.base.after (fm.base.onSubscribe fm.base.init sub).1 pre) c v e).1,
+          countCalls fm (fm.base.onSubscribe fm.base.init sub).1 pre + 1), [.error c' e]) := by
+    have h0 : 0 + countCalls fm (fm.base.onSubscribe fm.base.init sub).1 pre =
+        countCalls fm (fm.base.onSubscribe fm.base.init sub).1 pre := by omega
+    rw [h0, ← hret]
+    simp [Machine.step, inject, hcall, hf, hh]
+  have htrace : (runScript fm (nextPlan cbN) mode sub raw).1.trace =
+      gate (((fm.base.onSubscribe fm.base.init sub).2 ++ fm.base.emits (fm.base.onSubscribe fm.base.init sub).1 pre) ++
+        ([.error c' e] ++ (inject fm cbN).emits ((h (fm.base.after (fm.base.onSubscribe fm.base.init sub).1 pre) c v e).1,
+            countCalls fm (fm.base.onSubscribe fm.base.init sub).1 pre + 1) post)) := by
+    rw [hag.trace, runOp_out _ _ _ _ hsi, hraw]
+    have e0 : (inject fm cbN).onSubscribe (inject fm cbN).init sub =
+        (((fm.base.onSubscribe fm.base.init sub).1, 0), (fm.base.onSubscribe fm.base.init sub).2) := rfl
+    rw [e0]
+    simp only []
+    rw [emits_append, i1, i2, emits_cons, hstep, List.append_assoc]
+  have hshape : (runScript fm (nextPlan cbN) mode sub raw).1.trace =
+      if hasTerm (runOp fm.base mode sub pre).out then (runOp fm.base mode sub pre).out
+      else (runOp fm.base mode sub pre).out ++ [.error c' e] := by
+    rw [htrace, hbefore, hasTerm_gate]
+    generalize (fm.base.onSubscribe fm.base.init sub).2 ++ fm.base.emits (fm.base.onSubscribe fm.base.init sub).1 pre = A
+    cases hA : hasTerm A
+    · rw [gate_append_of_noTerm _ _ hA, gate_of_noTerm _ hA]
+      simp [gate]
+    · rw [gate_append_of_term _ _ hA]
+      simp
+  have hgram : Grammar (runScript fm (nextPlan cbN) mode sub raw).1.trace := by
+    rw [hag.trace]; exact runOp_grammar _ _ _ _
+  have hclosed : (runScript fm (nextPlan cbN) mode sub raw).1.dOpen = false := by
+    rw [hag.down, runOp_downOpen, ← hag.trace, hshape]
+    cases hb : hasTerm (runOp fm.base mode sub pre).out <;> simp [hb]
+  exact ⟨hesc, hshape, hgram, hag.unh, hclosed, hag.released hclosed⟩
+
 end Ro.Fault
